@@ -334,7 +334,26 @@ func c15Discovery(r *simrt.Run) {
 			valid, _ := discover.VerifEncodePing(advKey, discover.Version, advAddr, nodeAddr, future())
 			var pkt []byte
 			class := ""
-			switch t.Choose(10) {
+			switch t.Choose(11) {
+			case 10:
+				// a correctly hashed and signed datagram whose signed body is cut short: no type byte at
+				// all (97 bytes), only the type byte, or part of the payload
+				class = "authenticated-short-body"
+				body := valid[97:]
+				switch t.Choose(3) {
+				case 0:
+					body = nil
+				case 1:
+					body = body[:1]
+				default:
+					body = body[:t.Choose(len(body))]
+				}
+				sig, err := crypto.Sign(crypto.Keccak256(body), advKey)
+				if err != nil {
+					return
+				}
+				pkt = append(append(make([]byte, 32), sig...), body...)
+				copy(pkt, crypto.Keccak256(pkt[32:]))
 			case 0:
 				class, pkt = "random-bytes", t.Bytes(1+t.Choose(300))
 			case 1:
@@ -390,7 +409,7 @@ func c15Discovery(r *simrt.Run) {
 				}
 				typ, _, n := discover.VerifPacketType(o.b)
 				switch class {
-				case "random-bytes", "truncated", "hash-corrupted", "expired-ping", "wrong-version-ping", "unbonded-findnode", "unsolicited-neighbors", "unsolicited-pong":
+				case "random-bytes", "truncated", "authenticated-short-body", "hash-corrupted", "expired-ping", "wrong-version-ping", "unbonded-findnode", "unsolicited-neighbors", "unsolicited-pong":
 					r.Fail("discovery-answered-invalid-packet", class, "the node answered a %s packet with a packet of type %d (%d nodes)", class, typ, n)
 				case "signature-corrupted", "oversized":
 					// a different but valid signature recovers another sender id: a pong to it is legitimate
